@@ -359,6 +359,19 @@ def special_cases() -> List[dict]:
         ["ZN:A", {"nodes": [N1], "edges": [["u1", "qT:A", ["n1"]]], "ext": ["n1"]}],
         ["ZN:A", {"nodes": [N1, N2], "edges": [["e1", "Y,ZN:A", ["n2"]]], "ext": ["n1"]}]]}
     cases.append({"kind": "pair", "tags": ["name-clash-X+Y,Z-vs-X,Y+Z"], "g1": q1, "g2": q2})
+    # --- the same nonterminal edges (by id) inserted in a different order in the two grammars: they are paired by id ---
+    q2r = json.loads(json.dumps(q2))
+    q2r["rules"][0][1]["edges"] = [["e2", "ZN:A", ["n2"]], ["e1", "Y,ZN:A", ["n1"]]]
+    cases.append({"kind": "pair", "tags": ["nonterminal-edges-inserted-in-different-order"], "g1": q1, "g2": q2r})
+    # --- same nodes, same external node SET, different external ORDER: not conjoinable -----------------------------
+    o1 = {"start": "SN:", "rules": [
+        ["SN:", {"nodes": [N1, N2], "edges": [["e1", "PN:AA", ["n1", "n2"]]], "ext": []}],
+        ["PN:AA", {"nodes": [N1, N2], "edges": [["t1", "aT:A", ["n1"]]], "ext": ["n1", "n2"]}]]}
+    o2 = {"start": "TN:", "rules": [
+        ["TN:", {"nodes": [N1, N2], "edges": [["e1", "QN:AA", ["n1", "n2"]]], "ext": []}],
+        ["QN:AA", {"nodes": [N1, N2], "edges": [["u1", "pT:A", ["n1"]]], "ext": ["n2", "n1"]}],
+        ["QN:AA", {"nodes": [N1, N2], "edges": [["u2", "qT:A", ["n2"]]], "ext": ["n1", "n2"]}]]}
+    cases.append({"kind": "pair", "tags": ["externals-in-different-order"], "g1": o1, "g2": o2})
     # both clashing pairs inside one rule (the two edges of the start rules pair crosswise)
     q2b = json.loads(json.dumps(q2))
     q2b["rules"][0][1]["edges"] = [["e1", "Y,ZN:A", ["n1"]], ["e2", "ZN:A", ["n2"]]]
